@@ -114,6 +114,27 @@ func vfBackoffRun(run *vfkit.Run, cs vfBackoffCase) {
 			}
 			prev, prevN = d, n
 		}
+	case "mixed":
+		// one value used both ways: -1 = the next duration() of the consecutive sequence, -2 = reset(), n >= 0 = a
+		// durationForAttempt(n) query in between. The query must not disturb the sequence, nor the sequence the query.
+		b := &backoff{NoJitter: cs.NoJitter, Base: cs.Base, Factor: cs.Factor, Cap: cs.Cap}
+		i := 0
+		for _, a := range cs.Attempts {
+			switch {
+			case a == -2:
+				b.reset()
+				i = 0
+			case a == -1:
+				if !check(i, b.duration(), "sequence-with-queries") {
+					return
+				}
+				i++
+			default:
+				if !check(a, b.durationForAttempt(a), "query-within-sequence") {
+					return
+				}
+			}
+		}
 	case "sequence":
 		b := &backoff{NoJitter: cs.NoJitter, Base: cs.Base, Factor: cs.Factor, Cap: cs.Cap}
 		// the attempts list is interpreted as lengths of runs separated by reset()
@@ -196,6 +217,18 @@ func TestVf_C19(t *testing.T) {
 				// unordered queries: the query is stateless
 				r.Shuffle(len(cs.Attempts), func(i, j int) { cs.Attempts[i], cs.Attempts[j] = cs.Attempts[j], cs.Attempts[i] })
 			}
+		} else if r.Intn(3) == 0 {
+			cs.Mode = "mixed"
+			for i, k := 0, 5+r.Intn(40); i < k; i++ {
+				switch r.Intn(8) {
+				case 0:
+					cs.Attempts = append(cs.Attempts, -2)
+				case 1, 2:
+					cs.Attempts = append(cs.Attempts, []int{0, 1, r.Intn(12), r.Intn(70), 1000}[r.Intn(5)])
+				default:
+					cs.Attempts = append(cs.Attempts, -1)
+				}
+			}
 		} else {
 			cs.Mode = "sequence"
 			runs := 1 + r.Intn(3)
@@ -213,7 +246,19 @@ func TestVf_C19(t *testing.T) {
 		}
 		// non-triviality: below cap at n=0 and at cap for the largest attempt
 		maxN := 0
-		if cs.Mode == "query" {
+		if cs.Mode == "mixed" {
+			i := 0
+			for _, a := range cs.Attempts {
+				if a == -2 {
+					i = 0
+				} else if a == -1 {
+					if i > maxN {
+						maxN = i
+					}
+					i++
+				}
+			}
+		} else if cs.Mode == "query" {
 			for _, a := range cs.Attempts {
 				if a > maxN {
 					maxN = a
